@@ -435,3 +435,66 @@ def realistic_family(seed, n, base_id, k=3):
         if ok:
             out.append(p)
     return out
+
+
+def add_quirks(progs, seed, p=0.6):
+    """Unusual but legal ways of writing a definition, applied to programs of another family (the
+    specification sees the same structure, only the order and redundancy change): a rule written
+    twice, a rule completely shadowed by an earlier one, an unused `let`, a `let` used only as a
+    right context, a rule set that is never entered, bracket-set members in descending order with
+    a member repeated inside a range, redundant parentheses."""
+    import copy as _copy
+    rnd = random.Random(seed * 131 + 7)
+    out = []
+    for p0 in progs:
+        if rnd.random() > p:
+            out.append(p0)
+            continue
+        q = _copy.deepcopy(p0)
+        named = q.named
+        for _ in range(rnd.choice([1, 2, 3])):
+            kind = rnd.choice(["dup", "shadow", "unused_let", "ctx_let", "dead_set", "set_order", "parens"])
+            sets_with_rules = [s for s in q.sets if s[1]]
+            if kind == "dup" and sets_with_rules:
+                name, rs = rnd.choice(sets_with_rules)
+                r = _copy.deepcopy(rnd.choice(rs))
+                rs.insert(rnd.randrange(len(rs) + 1), r)
+            elif kind == "shadow" and sets_with_rules:
+                name, rs = rnd.choice(sets_with_rules)
+                i = rnd.randrange(len(rs))
+                if rs[i].get("ctx") is None:
+                    rs.insert(rnd.randrange(i + 1, len(rs) + 1), simple_rule(_copy.deepcopy(rs[i]["re"])))
+            elif kind == "unused_let":
+                q.env.append(("u%d" % len(q.env), alt(chr_(A), str_([B, C])), -1))
+            elif kind == "ctx_let" and sets_with_rules:
+                name, rs = rnd.choice(sets_with_rules)
+                r = rnd.choice(rs)
+                if r.get("ctx") is None:
+                    vn = "c%d" % len(q.env)
+                    q.env.append((vn, rnd.choice([chr_(A), set_([(A, B)]), cat(chr_(B), opt(chr_(C)))]), -1))
+                    r["ctx"] = var(vn)
+            elif kind == "dead_set" and named:
+                q.sets.append(("Z%d" % len(q.sets), [simple_rule(chr_(A)), inf_rule(plus(chr_(B)))]))
+            elif kind == "set_order":
+                def walk(re):
+                    if re["k"] == "set" and len(re["items"]) >= 1:
+                        items = sorted(re["items"], key=lambda it: -it["lo"])
+                        big = [it for it in items if it["hi"] > it["lo"]]
+                        singles = {it["lo"] for it in items if it["lo"] == it["hi"]}
+                        if big and big[0]["lo"] + 1 not in singles and big[0]["lo"] + 1 <= big[0]["hi"]:
+                            # a member of the range listed again as a single character
+                            items.append({"lo": big[0]["lo"] + 1, "hi": big[0]["lo"] + 1})
+                        re["items"] = items
+                    for f_ in ("a", "b"):
+                        if f_ in re:
+                            walk(re[f_])
+                for r in q.rules():
+                    walk(r["re"])
+            elif kind == "parens":
+                q.paren_seed = rnd.randrange(1 << 30)
+        try:
+            ok = q.well_formed(getattr(q, "bi", None))
+        except Exception:
+            ok = False
+        out.append(q if ok else p0)
+    return out
